@@ -8,6 +8,7 @@ func OpenReaderToChan(sourceName string, reader io.ReadCloser, batchSize, batchB
 	out := newBatcher(batchBuffer)
 
 	go func() {
+		verifTrace("rd.start", sourceName, 0, 0)
 		defer reader.Close()
 		defer out.close()
 		out.startFileReading(sourceName)
